@@ -118,6 +118,11 @@ def handle (j : Json) : Except String Json := do
       pure (Json.mkObj [("outcome", "ran"),
         ("writes", Json.arr (r.writes.map (fun w => Json.mkObj [("path", SL w.path), ("content", S w.content)])).toArray),
         ("stdout", S r.stdout), ("status", statusJson st)])
+  | "pyspace" =>
+    -- the code points the model takes for Python white space (`str.strip()`, `str.split()`, `str.rstrip()`): all of them, for an exhaustive comparison
+    let cps := (List.range 0x110000).filter (fun n => pyIsSpace (Char.ofNat n))
+    pure (Json.mkObj [("spaces", Json.arr (cps.map (fun (n : Nat) => Json.num (JsonNumber.fromNat n))).toArray),
+      ("lower", S (asciiLower ((List.range 128).map Char.ofNat)))])
   | "mainargs" =>
     -- an argument vector of `cminx.main`: does the model decide it, what the parser extracts, and the command-line source
     let argv ← getStrList j "argv"
